@@ -1,0 +1,55 @@
+//go:build verif
+
+// Contracts for govc (contract-based verification, /verif). Comment-only file: with the
+// build tag off it is not compiled, with the tag on it contains no code.
+
+package kernel
+
+// ───────────── round.go (C19) ─────────────
+
+//@ spec SnapsOK(c *CacheRound) bool = c != nil && (forall i int :: 0 <= i && i < len(c.Snapshots) ==>
+//@     c.Snapshots[i] != nil && c.Snapshots[i].Timestamp < 9223372036854775808 && c.Snapshots[i].Version == common.SnapshotVersionCommonEncoding)
+//@ spec TxDisjoint(a *common.Snapshot, b *common.Snapshot) bool =
+//@     forall m, n int :: 0 <= m && m < len(a.Transactions) && 0 <= n && n < len(b.Transactions) ==> a.Transactions[m] != b.Transactions[n]
+//@ spec Compatible(a *common.Snapshot, b *common.Snapshot) bool =
+//@     a.Hash != b.Hash && a.Timestamp != b.Timestamp && a.Timestamp / OneDay == b.Timestamp / OneDay && TxDisjoint(a, b)
+//@ spec RoundOK(c *CacheRound) bool = SnapsOK(c) &&
+//@     (forall i, j int :: 0 <= i && i < len(c.Snapshots) && 0 <= j && j < len(c.Snapshots) ==>
+//@         c.Snapshots[i].Timestamp < c.Snapshots[j].Timestamp + config.SnapshotRoundGap &&
+//@         (i != j ==> Compatible(c.Snapshots[i], c.Snapshots[j])))
+
+//@ func (c *CacheRound) Gap$1
+//@   property C19
+//@   requires SnapsOK(c) && 0 <= i && i < len(c.Snapshots) && 0 <= j && j < len(c.Snapshots)
+//@   pure
+//@   ensures result <==> c.Snapshots[i].Timestamp < c.Snapshots[j].Timestamp
+
+//@ func (c *CacheRound) Gap
+//@   property C19
+//@   requires RoundOK(c)
+//@   modifies c.Snapshots[..]
+//@   ensures [roundok] RoundOK(c)
+//@   ensures [empty] len(c.Snapshots) == 0 ==> result0 == 9223372036854775807 && result1 == 0
+//@   ensures [bounds] len(c.Snapshots) > 0 ==> result0 <= result1 && result1 < result0 + config.SnapshotRoundGap &&
+//@       (forall i int :: 0 <= i && i < len(c.Snapshots) ==> result0 <= c.Snapshots[i].Timestamp && c.Snapshots[i].Timestamp <= result1)
+//@   ensures [perm] forall i int :: 0 <= i && i < len(c.Snapshots) ==> exists j int :: 0 <= j && j < len(c.Snapshots) && c.Snapshots[i] == old(c.Snapshots[j])
+
+//@ func (c *CacheRound) validateSnapshot
+//@   property C19
+//@   requires RoundOK(c) && s != nil && s.Timestamp < 9223372036854775808 && s.Version == common.SnapshotVersionCommonEncoding
+//@   panics when s.RoundNumber != c.Number || !s.Hash.HasValue()
+//@   modifies c.Snapshots, c.Snapshots[..]
+//@   ensures [added] result == nil && add ==> RoundOK(c) && len(c.Snapshots) == old(len(c.Snapshots)) + 1 && c.Snapshots[len(c.Snapshots)-1] == s
+//@   ensures [kept] (result != nil || !add) ==> RoundOK(c) && len(c.Snapshots) == old(len(c.Snapshots))
+//@   loop 0 invariant forall k int :: 0 <= k && k <= rangeindex_0 ==> Compatible(c.Snapshots[k], s)
+//@   loop 1 invariant forall k int :: 0 <= k && k <= rangeindex_0 ==> Compatible(c.Snapshots[k], s)
+//@   loop 1 invariant rangeindex_0 + 1 < len(c.Snapshots) && cs == c.Snapshots[rangeindex_0 + 1]
+//@   loop 1 invariant cs.Hash != s.Hash && cs.Timestamp != s.Timestamp && cs.Timestamp / OneDay == s.Timestamp / OneDay
+//@   loop 1 invariant forall m int :: 0 <= m && m <= rangeindex_1 ==> !slices.Contains(cs.Transactions, s.Transactions[m])
+
+//@ func (c *CacheRound) asFinal
+//@   property C19
+//@   requires RoundOK(c)
+//@   modifies c.Snapshots[..]
+//@   ensures [closed] len(c.Snapshots) == 0 <==> result == nil
+//@   ensures [final] result != nil ==> result.Number == c.Number && result.NodeId == c.NodeId && result.Start <= result.End && result.End < result.Start + config.SnapshotRoundGap
